@@ -268,10 +268,12 @@ EXTRA5 = {
 EXTRA6 = {
     "C01": "Round 6: an expression taken from the source is put under `*` / `**` / `await` only when its node class is known atomic or it is parenthesised.",
     "C02": "Round 6: hooks delete outright only node kinds that cannot carry a binding (or kinds a dedicated rule governs).",
-    "C06": "Round 6: argument specifications consumed by replace_args are built per call (also through chooser helpers and memoised properties).",
+    "C06": "Round 6: argument specifications consumed by replace_args are built per call (also through chooser helpers and memoised properties); gathering visitors are fresh per walk.",
     "C07": "Round 6: same argument-specification clause (a site skipped in the first run is fixed by the second).",
     "C08": "Round 6: remove-future-imports drops only names of its deprecated table; hand-built string literals of lazy-logging (R-STRLIT) and node-removal kinds shared.",
-    "C13": "Round 6: no visit_* hook prunes the traversal by the user's line patterns.",
+    "C13": "Round 6: no visit_* hook prunes the traversal by the user's line patterns; a plain transformer attribute that another hook's condition reads is never assigned under a line gate (found and repaired a genuine defect: fixed entry eeb141a).",
+    "C09": "Round 6: a gathering visitor is built for the walk it is used for, never kept in an attribute between walks.",
+    "C18": "Round 6: gathering visitors are fresh per walk.",
 }
 
 
